@@ -96,15 +96,25 @@ Theorem continuation_refuses_foreign_token_any_cache :
   k = Cursor /\ i = j.
 Proof. exact continue_accept_needs_own_cursor. Qed.
 
+(* Session tokens, on EVERY route on which one is presented — a resume (unary, /init,
+   /exchange carrying VGI-Session) and the teardown DELETE {prefix}/__session__ —
+   for all identity pairs, whatever the registry holds: *)
 Theorem session_refuses_foreign_token_any_registry :
   forall (CT : Type) (seal : N -> bytes -> payload -> CT) (open : bytes -> CT -> option payload),
   (forall n a p, open a (seal n a p) = Some p) ->
   (forall n a a' p p', open a' (seal n a p) = Some p' -> a' = a) ->
-  forall reg j re k i n id,
+  forall (route : sroute) reg j re k i n id,
   valid_ident i = true -> valid_ident j = true ->
-  resume_dec CT open reg j (env CT re Sticky (mint CT seal k i n id)) = true ->
+  sticky_accepts CT open route reg j (env CT re Sticky (mint CT seal k i n id)) = true ->
   k = Sticky /\ i = j.
-Proof. exact resume_accept_needs_own_sticky. Qed.
+Proof. exact sticky_route_refuses_foreign. Qed.
+
+(* the teardown route takes exactly the decision a resume takes (no second look under
+   another identity) *)
+Theorem session_routes_agree :
+  forall (CT : Type) (open : bytes -> CT -> option payload) (r r' : sroute) reg j t,
+  sticky_accepts CT open r reg j t = sticky_accepts CT open r' reg j t.
+Proof. exact sticky_routes_agree. Qed.
 
 (* ---- 4. history independence ---------------------------------------------- *)
 
@@ -184,7 +194,7 @@ Proof. exact cache_ident_eq_cases. Qed.
 
 (* ---- 5. every history, decidable form (what the correspondence evaluates on the
            implementation's outputs): in any sequence of inits, session opens, cache
-           resets, continuations and resumes by any identities, an accepted
+           resets, continuations, resumes and session teardowns by any identities, an accepted
            presentation is of the slot's kind and by the minting identity, and an
            identity presenting its own cursor with the echoed call token / its own
            session token is accepted — whatever happened before ------------------- *)
@@ -195,7 +205,7 @@ Theorem spec_holds_for_every_ideal_aead :
   forall (CT : Type) (seal : N -> bytes -> payload -> CT) (open : bytes -> CT -> option payload),
   (forall n a p, open a (seal n a p) = Some p) ->
   (forall n a a' p p', open a' (seal n a p) = Some p' -> a' = a) ->
-  forall ids ops, spec_run ids ops (run CT seal open ids (st0 CT) ops) [] 0 0 None = true.
+  forall ids ops, spec_run ids ops (run CT seal open ids (st0 CT) ops) [] 0 0 None [] = true.
 Proof. exact spec_any_aead. Qed.
 
 (* ---- non-vacuity ------------------------------------------------------------ *)
